@@ -13,7 +13,7 @@ Local Open Scope Z_scope.
    the file becomes old bytes ++ ZEROS up to the offset ++ b, for every offset, size and content. *)
 Theorem C02_gap : forall s v f c d k i m b,
   hd_name f <> [] -> hd_node f = Some c -> get (f_heap s) c = Some (NFile d k i m) ->
-  has (hd_mode f) OpenWrite = true -> has (hd_mode f) OpenAppend = false -> zlen d <= hd_at f ->
+  has (hd_mode f) OpenWrite = true -> has (hd_mode f) OpenAppend = false -> zlen d <= hd_at f -> b <> [] ->
   f_write s v f b =
     (with_heap s (upd (f_heap s) c (NFile (d ++ zeros (Z.to_nat (hd_at f) - length d) ++ b) k i m)),
      set_at f (hd_at f + zlen b), RInt (zlen b)).
@@ -21,7 +21,7 @@ Proof. intros. eapply gap_write; eassumption. Qed.
 
 Theorem C02_gap_at : forall s v f c d k i m b off,
   hd_name f <> [] -> hd_node f = Some c -> get (f_heap s) c = Some (NFile d k i m) ->
-  has (hd_mode f) OpenWrite = true -> zlen d <= off ->
+  has (hd_mode f) OpenWrite = true -> zlen d <= off -> b <> [] ->
   f_write_at s v f b off =
     (with_heap s (upd (f_heap s) c (NFile (d ++ zeros (Z.to_nat off - length d) ++ b) k i m)), RInt (zlen b)).
 Proof. intros. eapply gap_write_at; eassumption. Qed.
@@ -30,23 +30,32 @@ Proof. intros. eapply gap_write_at; eassumption. Qed.
    past the old end, zero; then b; then the old bytes. *)
 Theorem C02_write_bytes : forall s v f c d k i m b,
   hd_name f <> [] -> hd_node f = Some c -> get (f_heap s) c = Some (NFile d k i m) ->
-  has (hd_mode f) OpenWrite = true ->
+  has (hd_mode f) OpenWrite = true -> b <> [] ->
   let pos := Z.to_nat (if has (hd_mode f) OpenAppend then zlen d else hd_at f) in
   exists d' f', f_write s v f b = (with_heap s (upd (f_heap s) c (NFile d' k i m)), f', RInt (zlen b))
     /\ forall j, nth_error d' j =
          if Nat.ltb j pos then (if Nat.ltb j (length d) then nth_error d j else Some 0%N)
          else if Nat.ltb j (pos + length b) then nth_error b (j - pos) else nth_error d j.
 Proof.
-  intros s v f c d k i m b Hn Hc Hg Hw pos.
+  intros s v f c d k i m b Hn Hc Hg Hw Hb pos.
   exists (put_bytes d pos b). eexists. split; [|intros; apply put_bytes_nth].
-  rewrite (f_write_ok s v f Hn Hc Hg b Hw). reflexivity.
+  rewrite (f_write_ok s v f Hn Hc Hg Hw Hb). reflexivity.
+Qed.
+
+(* a write of zero bytes changes neither the file nor the handle *)
+Theorem C02_write_nothing : forall s v f c d k i m,
+  hd_name f <> [] -> hd_node f = Some c -> get (f_heap s) c = Some (NFile d k i m) ->
+  exists r, f_write s v f [] = (s, f, r) /\ (forall off, exists r', f_write_at s v f [] off = (s, r')).
+Proof.
+  intros s v f c d k i m Hn Hc Hg. eexists. split; [eapply f_write_nil; eassumption|].
+  intros off. unfold f_write_at. destruct (Z.ltb off 0); eauto.
 Qed.
 
 (* ---- "O_APPEND writes land at the current end" ------------------------------------------------ *)
 (* whatever the handle's own offset is - in particular after other handles made the file longer or shorter *)
 Theorem C02_append : forall s v f c d k i m b,
   hd_name f <> [] -> hd_node f = Some c -> get (f_heap s) c = Some (NFile d k i m) ->
-  has (hd_mode f) OpenWrite = true -> has (hd_mode f) OpenAppend = true ->
+  has (hd_mode f) OpenWrite = true -> has (hd_mode f) OpenAppend = true -> b <> [] ->
   f_write s v f b =
     (with_heap s (upd (f_heap s) c (NFile (d ++ b) k i m)), set_at f (zlen d + zlen b), RInt (zlen b)).
 Proof. intros. eapply append_write; eassumption. Qed.
@@ -54,28 +63,38 @@ Proof. intros. eapply append_write; eassumption. Qed.
 (* ---- "the access mode of the handle is enforced" ------------------------------------------------ *)
 Theorem C02_access_read : forall s v f c d k i m n off,
   hd_name f <> [] -> hd_node f = Some c -> get (f_heap s) c = Some (NFile d k i m) ->
-  has (hd_mode f) OpenRead = false ->
+  has (hd_mode f) OpenRead = false -> 0 < n ->
   (exists e, f_read s v f n = (f, RFail e)) /\ (exists e, f_read_at s v f n off = RFail e).
 Proof. intros. eapply no_read_no_data; eassumption. Qed.
+
+(* (an empty buffer is "read" at once, as os.File does: still no data) *)
+Theorem C02_access_read_empty : forall s v f c n off,
+  hd_name f <> [] -> hd_node f = Some c -> n <= 0 ->
+  f_read s v f n = (f, RBytes 0 [] None)
+  /\ f_read_at s v f n off = (if Z.ltb off 0 then RFail EG_NegativeOffset else RBytes 0 [] None).
+Proof. intros. eapply empty_read_no_data; eassumption. Qed.
 
 Theorem C02_access_write : forall s v f c d k i m b off size,
   hd_name f <> [] -> hd_node f = Some c -> get (f_heap s) c = Some (NFile d k i m) ->
   has (hd_mode f) OpenWrite = false ->
-  (exists e, f_write s v f b = (s, f, RFail e)) /\ (exists e, f_write_at s v f b off = (s, RFail e))
+  (exists e, f_write s v f b = (s, f, RFail e))
+  /\ (exists r, f_write_at s v f b off = (s, r) /\ (b <> [] -> exists e, r = RFail e))
   /\ (exists e, f_truncate s v f size = (s, RFail e)).
 Proof. intros. eapply no_write_no_change; eassumption. Qed.
 
 (* ---- "any call on a closed handle fails with a closed-file error and no effect" ---------------- *)
-(* no effect: always.  closed-file error: always, except that the implementation validates a negative
-   WriteAt offset and a negative Truncate size first (classified: KfClosedPriority for Truncate). *)
+(* no effect: always.  closed-file error: always, except - exactly as os.File - that ReadAt and WriteAt refuse a
+   negative offset first and return (0, nil) for an empty buffer without looking at the handle. *)
 Theorem C02_closed : forall s v f,
   hd_name f <> [] -> hd_node f = None -> win v = false ->
   (forall n, f_read s v f n = (f, RFail EG_Closed))
-  /\ (forall n off, f_read_at s v f n off = RFail EG_Closed)
+  /\ (forall n off, f_read_at s v f n off =
+        if Z.ltb off 0 then RFail EG_NegativeOffset else if Z.leb n 0 then RBytes 0 [] None else RFail EG_Closed)
   /\ (forall b, f_write s v f b = (s, f, RFail EG_Closed))
-  /\ (forall b off, f_write_at s v f b off = (s, RFail (if Z.ltb off 0 then EG_NegativeOffset else EG_Closed)))
+  /\ (forall b off, f_write_at s v f b off =
+        (s, if Z.ltb off 0 then RFail EG_NegativeOffset else match b with [] => RInt 0 | _ => RFail EG_Closed end))
   /\ (forall off wh, f_seek s v f off wh = (f, RFail EG_Closed))
-  /\ (forall size, f_truncate s v f size = (s, RFail (if Z.ltb size 0 then EInvalidArgument else EG_Closed)))
+  /\ (forall size, f_truncate s v f size = (s, RFail EG_Closed))
   /\ f_stat s v f = RFail EG_FileClosing
   /\ f_sync f = RFail EG_Closed
   /\ (forall mode, f_chmod s v f mode = (s, RFail EG_Closed))
@@ -96,32 +115,28 @@ Theorem C02_unlinked_local : forall s s' v f c,
   /\ (forall off wh, f_seek s' v f off wh = f_seek s v f off wh).
 Proof. exact handle_reads_local. Qed.
 
-(* (2) a successful Remove or Rename of ANY name leaves the node of an open file as it was, or - when the
-   name was a link of that very file - with one link less; the data stay as long as a link remains *)
+(* (2) a successful Remove or Rename of ANY path leaves the data of an open file as they were - also when the
+   path was the LAST name of that very file: only the link count changes *)
 Theorem C02_unlinked_remove : forall s v name s' c d k i m,
-  remove s v name = (s', ROk) -> get (f_heap s) c = Some (NFile d k i m) -> k <> 1 ->
+  remove s v name = (s', ROk) -> get (f_heap s) c = Some (NFile d k i m) ->
   exists k', get (f_heap s') c = Some (NFile d k' i m).
 Proof.
-  intros s v name s' c d k i m Hr Hc Hk. destruct (remove_effect s v name c Hr Hc) as [H|H]; [eauto|].
-  destruct (Z.eqb_spec (k - 1) 0); [lia|eauto].
+  intros s v name s' c d k i m Hr Hc. destruct (remove_effect s v name c Hr Hc) as [H|H]; eauto.
 Qed.
 
 Theorem C02_unlinked_rename : forall s v o n s' c d k i m,
-  rename s v o n = (s', ROk) -> get (f_heap s) c = Some (NFile d k i m) -> k <> 1 ->
+  rename s v o n = (s', ROk) -> get (f_heap s) c = Some (NFile d k i m) ->
   exists k', get (f_heap s') c = Some (NFile d k' i m).
 Proof.
-  intros s v o n s' c d k i m Hr Hc Hk. destruct (rename_effect s v o n c Hr Hc) as [H|H]; [eauto|].
-  destruct (Z.eqb_spec (k - 1) 0); [lia|eauto].
+  intros s v o n s' c d k i m Hr Hc. destruct (rename_effect s v o n c Hr Hc) as [H|H]; eauto.
 Qed.
 
-(* (3) when the LAST link goes the implementation empties the data although a handle is open: on Linux the
-   data stay until the last descriptor is closed.  Finding KfUnlinkDropsData; witness: *)
+(* in particular the handle goes on reading its data after the last name is gone *)
 Definition wit_unlink : list fop :=
-  [Open NAME_A 66 420; Write 0 [104; 105]%N; PRemove NAME_A; ReadAt 0 2 0].
-Example C02_unlinked_last_link_refuted :
-  first_kf empty_state wit_unlink 0 = Some (2%nat, KfUnlinkDropsData)
-  /\ nth_error (impl_results wit_unlink) 3 = Some (S_Data 0 [] (Some X_EOF))
-  /\ nth_error (spec_results wit_unlink) 3 = Some (S_Data 2 [104; 105]%N None).
+  [Open NAME_A 66 420; Write 0 [104; 105]%N; PRemove NAME_A; ReadAt 0 2 0; Fstat 0].
+Example C02_unlinked_last_link_example :
+  impl_results wit_unlink = spec_results wit_unlink
+  /\ nth_error (impl_results wit_unlink) 3 = Some (S_Data 2 [104; 105]%N None).
 Proof. vm_compute. auto. Qed.
 
 (* ---- directory handles: ReadDir(n) / Readdirnames(n) -------------------------------------------- *)
@@ -183,44 +198,22 @@ Example C02_history_example :
       S_Ok; S_Err X_Closed; S_Int 0].
 Proof. vm_compute. auto. Qed.
 
-(* ---- the classified deviations are real: one refuting witness each ------------------------------- *)
+(* ---- the classified deviation is real ---------------------------------------------------------------- *)
 Definition differ (ops : list fop) : Prop := impl_results ops <> spec_results ops.
-
-Definition wit_append_open : list fop :=
-  [Open NAME_A 66 420; Write 0 [104; 105]%N; Open NAME_A 1026 420; Seek 1 0 1].
-Example KfAppendOpenOffset_refuted :
-  first_kf empty_state wit_append_open 0 = Some (2%nat, KfAppendOpenOffset) /\ differ wit_append_open.
-Proof. split; [vm_compute; reflexivity|]. unfold differ. vm_compute. congruence. Qed.
-
-Definition wit_zero_read : list fop := [Open NAME_A 66 420; Read 0 0].
-Example KfZeroLenRead_refuted :
-  first_kf empty_state wit_zero_read 0 = Some (1%nat, KfZeroLenRead) /\ differ wit_zero_read.
-Proof. split; [vm_compute; reflexivity|]. unfold differ. vm_compute. congruence. Qed.
-
-Definition wit_zero_read_at : list fop := [Open NAME_A 66 420; ReadAt 0 0 5].
-Example KfZeroLenReadAt_refuted :
-  first_kf empty_state wit_zero_read_at 0 = Some (1%nat, KfZeroLenReadAt) /\ differ wit_zero_read_at.
-Proof. split; [vm_compute; reflexivity|]. unfold differ. vm_compute. congruence. Qed.
-
-Definition wit_zero_write : list fop := [Open NAME_A 66 420; Seek 0 7 0; Write 0 []; Fstat 0].
-Example KfZeroLenWrite_refuted :
-  first_kf empty_state wit_zero_write 0 = Some (2%nat, KfZeroLenWrite) /\ differ wit_zero_write.
-Proof. split; [vm_compute; reflexivity|]. unfold differ. vm_compute. congruence. Qed.
-
-Definition wit_zero_write_at : list fop := [Open NAME_A 66 420; WriteAt 0 [] 7; Fstat 0].
-Example KfZeroLenWriteAt_refuted :
-  first_kf empty_state wit_zero_write_at 0 = Some (1%nat, KfZeroLenWriteAt) /\ differ wit_zero_write_at.
-Proof. split; [vm_compute; reflexivity|]. unfold differ. vm_compute. congruence. Qed.
 
 Definition wit_write_at_append : list fop := [Open NAME_A 1090 420; WriteAt 0 [120]%N 0].
 Example KfWriteAtAppend_refuted :
   first_kf empty_state wit_write_at_append 0 = Some (1%nat, KfWriteAtAppend) /\ differ wit_write_at_append.
 Proof. split; [vm_compute; reflexivity|]. unfold differ. vm_compute. congruence. Qed.
 
-Definition wit_closed_priority : list fop := [Open NAME_A 66 420; Close 0; Ftruncate 0 (-1)].
-Example KfClosedPriority_refuted :
-  first_kf empty_state wit_closed_priority 0 = Some (2%nat, KfClosedPriority) /\ differ wit_closed_priority.
-Proof. split; [vm_compute; reflexivity|]. unfold differ. vm_compute. congruence. Qed.
-
-Example KfUnlinkDropsData_refuted : differ wit_unlink.
-Proof. unfold differ. vm_compute. congruence. Qed.
+(* ---- the deviations repaired in /repo: implementation and specification now agree on their witnesses ---- *)
+Definition repaired_witnesses : list (list fop) :=
+  [ [Open NAME_A 66 420; Write 0 [104; 105]%N; Open NAME_A 1026 420; Seek 1 0 1; Read 1 2];   (* O_APPEND open offset *)
+    [Open NAME_A 66 420; Read 0 0; ReadAt 0 0 5; ReadAt 0 0 (-1)];                             (* empty-buffer reads *)
+    [Open NAME_A 66 420; Seek 0 7 0; Write 0 []; Fstat 0; WriteAt 0 [] 9; Fstat 0];             (* zero-byte writes *)
+    [Open NAME_A 66 420; Close 0; Ftruncate 0 (-1); ReadAt 0 2 (-1); ReadAt 0 0 0; WriteAt 0 [] 3];   (* closed-handle priority *)
+    wit_unlink ].
+Example C02_repaired_agree : forallb (fun ops => match first_kf empty_state ops 0 with None => true | Some _ => false end)
+                               repaired_witnesses = true
+  /\ map impl_results repaired_witnesses = map spec_results repaired_witnesses.
+Proof. vm_compute. auto. Qed.
